@@ -135,6 +135,14 @@ Proof. intros H. unfold set_procs. rewrite H. reflexivity. Qed.
 Lemma find_vm_in id l v : find_vm id l = Some v -> In v l.
 Proof. intros H. destruct (find_vm_split _ _ _ H) as (a & b & -> & _). apply in_or_app. right; left; reflexivity. Qed.
 
+Lemma in_find_vm l v : NoDup (map v_id l) -> In v l -> find_vm (v_id v) l = Some v.
+Proof.
+  induction l as [|x r IH]; intros Hn Hin; [destruct Hin|]. cbn [find_vm map] in *.
+  apply NoDup_cons_iff in Hn. destruct Hn as [Hx Hr]. destruct Hin as [->|Hin]; [rewrite N.eqb_refl; reflexivity|].
+  destruct (N.eqb (v_id x) (v_id v)) eqn:E; [|apply IH; assumption].
+  apply N.eqb_eq in E. exfalso. apply Hx. rewrite E. apply in_map. exact Hin.
+Qed.
+
 (* find_vm in the list with one VM's processes replaced *)
 Lemma find_vm_replaced id a v b v' id' :
   find_vm id a = None -> v_id v = id -> v_id v' = id ->
@@ -144,6 +152,23 @@ Proof.
   destruct (N.eqb id' id) eqn:E.
   - apply N.eqb_eq in E. subst id'. rewrite Ha, N.eqb_refl. reflexivity.
   - rewrite (N.eqb_sym id id'). rewrite E. reflexivity.
+Qed.
+
+Lemma set_procs_ids id f l : map v_id (set_procs id f l) = map v_id l.
+Proof.
+  destruct (find_vm id l) as [v|] eqn:Ev; [|rewrite (set_procs_none _ _ _ Ev); reflexivity].
+  destruct (set_procs_split id f l v Ev) as (a & b & Hl & Ha & Hs). rewrite Hs, Hl, !map_app. reflexivity.
+Qed.
+Lemma set_procs_in id f l v : NoDup (map v_id l) -> In v (set_procs id f l) -> v_id v = id ->
+  exists v0, find_vm id l = Some v0 /\ v_procs v = f (v_procs v0).
+Proof.
+  intros Hn Hin Hid. destruct (find_vm id l) as [v0|] eqn:Ev.
+  - exists v0. split; [reflexivity|].
+    destruct (set_procs_split id f l v0 Ev) as (a & b & Hl & Ha & Hs).
+    assert (Hn' : NoDup (map v_id (set_procs id f l))) by (rewrite set_procs_ids; exact Hn).
+    pose proof (in_find_vm _ v Hn' Hin) as Hf. rewrite Hid, Hs, find_vm_app, Ha in Hf. cbn [find_vm v_id] in Hf.
+    rewrite (find_vm_id _ _ _ Ev), N.eqb_refl in Hf. injection Hf as <-. reflexivity.
+  - rewrite (set_procs_none _ _ _ Ev) in Hin. apply (in_find_vm _ v Hn) in Hin. congruence.
 Qed.
 
 (* a VM's process list is replaced by a duplicate-free part of it: what the invariant needs *)
@@ -342,17 +367,11 @@ Lemma close_runner_view u w ex clock w' ex' clock' :
   clock <= clock' /\ (w_updated w' = w_updated w \/ clock < w_updated w') /\ (w_updated w <= clock -> w_updated w' <= clock').
 Proof.
   unfold close_runner. destruct (has_run u (w_running w)) eqn:Eh; cbn [negb].
-  - set (w1 := with_updated (with_runs w (w_starting w) (del_run u (w_running w))) (clock + 1)).
-    intros H. injection H as <- <- <-.
-    assert (Hw1 : w_id w1 = w_id w /\ sids w1 = sids w /\ rids w1 = filter (fun x => negb (N.eqb x u)) (rids w) /\ unk w1 = unk w /\ w_updated w1 = clock + 1).
-    { unfold w1, sids, rids, unk. cbn. rewrite del_run_ids. auto. }
-    destruct Hw1 as (A & B & C & D & E).
-    destruct (wstate_eqb (w_st w1) WRunning && Nat.eqb (nrun w1) 0) eqn:Ec.
-    + apply andb_true_iff in Ec. destruct Ec as [Ec _].
-      unfold sids, rids, unk in *. cbn. split; [exact A|]. split; [exact B|]. split; [exact C|].
-      split; [|split; [lia|split; [right; cbn in E; lia|intros _; cbn in E; lia]]].
-      rewrite <- D. unfold w1 in *. cbn in *. destruct (w_st w); cbn in *; try discriminate; reflexivity.
-    + split; [exact A|]. split; [exact B|]. split; [exact C|]. split; [exact D|]. split; [lia|]. split; [right; lia|intros _; lia].
+  - cbv zeta. intros H. injection H as <- <- <-.
+    match goal with |- context [if ?c then _ else _] => destruct c eqn:Ec end.
+    + apply andb_true_iff in Ec. destruct Ec as [Ec _]. unfold sids, rids, unk. cbn in *. rewrite del_run_ids.
+      repeat split; auto; try lia. destruct (w_st w); cbn in *; try discriminate; reflexivity.
+    + unfold sids, rids, unk. cbn. rewrite del_run_ids. repeat split; auto; lia.
   - intros H. injection H as <- <- <-. assert (~ In u (rids w)).
     { intros Hin. apply has_run_in in Hin. congruence. }
     rewrite (filter_ne_notin u (rids w) H). repeat split; auto; lia.
@@ -377,19 +396,862 @@ Proof.
     destruct Dv as [Dv|Dv]; [left; congruence|right].
     (* the modified VM has no process u any more *)
     assert (Hnu : ~ In u (v_procs v)).
-    { rewrite Hid in Hvid. subst id.
-      destruct (find_vm (v_id v) vms) as [v0|] eqn:Ev0.
-      - destruct (set_procs_split (v_id v) f vms v0 Ev0) as (a & b & Hl & Ha & Hs).
-        assert (Hfind : find_vm (v_id v) (set_procs (v_id v) f vms) = Some (mkvm (v_id v0) (v_it v0) (f (v_procs v0)))).
-        { rewrite Hs. rewrite find_vm_app, Ha. cbn [find_vm v_id]. rewrite (find_vm_id _ _ _ Ev0), N.eqb_refl. reflexivity. }
-        rewrite (in_find_vm _ v Hn' Hv) in Hfind. injection Hfind as ->. cbn [v_procs]. unfold f. intros Hin.
-        apply filter_In in Hin. destruct Hin as [_ Hin]. rewrite N.eqb_refl in Hin. discriminate.
-      - rewrite (set_procs_none _ _ _ Ev0) in Hv. exfalso.
-        apply (in_find_vm _ v Hn) in Hv. congruence. }
+    { destruct (set_procs_in id f vms v Hn Hv) as (v0 & _ & Hp); [congruence|]. rewrite Hp. unfold f. intros Hin.
+      apply filter_In in Hin. destruct Hin as [_ Hin]. rewrite N.eqb_refl in Hin. discriminate. }
     intros y Hy. specialize (Dv y Hy). rewrite B, C. apply in_app_iff in Dv. apply in_app_iff.
     destruct Dv as [Dv|Dv]; [left; exact Dv|right]. apply filter_In. split; [exact Dv|].
     destruct (N.eqb y u) eqn:E; [apply N.eqb_eq in E; subst; contradiction|reflexivity].
   - exact St.
   - apply U. apply (pi_stamps _ _ _ HP'). cbn [pe_pool]. eapply find_w_in; eauto.
   - exact L.
+Qed.
+
+(* ---------------- a start command returns ---------------- *)
+Lemma NoDup_insert_mid {A} (x y : list A) u : NoDup (x ++ y) -> ~ In u (x ++ y) -> NoDup (x ++ u :: y).
+Proof.
+  intros H Hn. apply (Permutation_NoDup (Permutation_middle x y u)). constructor; assumption.
+Qed.
+
+Lemma set_procs_grow vms probes e id u :
+  NoDup (map v_id vms) -> PInv vms probes e ->
+  ~ In u (flat_map v_procs vms ++ starting_all (pe_pool e)) ->
+  (forall w, find_w id (p_workers (pe_pool e)) = Some w -> In u (sids w ++ rids w)) ->
+  (forall pb r, In (pb, r) probes -> pb_id pb = id ->
+                forall w, find_w id (p_workers (pe_pool e)) = Some w -> w_updated w <> pb_updated pb) ->
+  NoDup (map v_id (set_procs id (cons u) vms)) /\ PInv (set_procs id (cons u) vms) probes e.
+Proof.
+  intros Hn [A B C D E F G] Hnu Hbook Hstale.
+  split; [rewrite set_procs_ids; exact Hn|].
+  destruct (find_vm id vms) as [v|] eqn:Ev; [|rewrite (set_procs_none _ _ _ Ev); constructor; assumption].
+  destruct (set_procs_split id (cons u) vms v Ev) as (a & b & Hl & Ha & Hs). rewrite Hs.
+  pose proof (find_vm_id _ _ _ Ev) as Hvid.
+  set (v' := mkvm (v_id v) (v_it v) (u :: v_procs v)).
+  assert (Hin : forall x, In x (a ++ v' :: b) -> x = v' \/ In x vms).
+  { intros x Hx. apply in_app_or in Hx. rewrite Hl.
+    destruct Hx as [Hx|[<-|Hx]]; [right; apply in_or_app; left; exact Hx|left; reflexivity|right; apply in_or_app; right; right; exact Hx]. }
+  constructor; try assumption.
+  - intros x Hx. destruct (Hin x Hx) as [->|Hx']; [|apply C; exact Hx']. cbn [v_id v']. apply C. eapply find_vm_in; eauto.
+  - intros x Hx. destruct (Hin x Hx) as [->|Hx']; [|apply D; exact Hx'].
+    cbn [v' v_id v_procs]. specialize (D v (find_vm_in _ _ _ Ev)). rewrite Hvid in *.
+    destruct (find_w id (p_workers (pe_pool e))) as [w|] eqn:Ew; [|exact I].
+    destruct D as [D|D]; [left; exact D|right]. intros y [<-|Hy]; [apply Hbook; reflexivity|apply D; exact Hy].
+  - rewrite Hl in E, Hnu. rewrite !flat_map_app in *. cbn [flat_map v' v_procs] in *. rewrite <- !app_assoc in *.
+    cbn [app]. apply NoDup_insert_mid; assumption.
+  - intros pb r Hp. destruct (F pb r Hp) as [F1 F2]. split; [exact F1|]. intros w x Hw Hx Hst.
+    rewrite (find_vm_replaced id a v b v' (pb_id pb) Ha Hvid Hvid) in Hx. rewrite <- Hl in Hx.
+    destruct (N.eqb (pb_id pb) id) eqn:Eq.
+    + apply N.eqb_eq in Eq. exfalso. rewrite Eq in Hw. exact (Hstale pb r Hp Eq w Hw Hst).
+    + exact (F2 w x Hw Hx Hst).
+Qed.
+
+Lemma get_run_ru u l r : get_run u l = Some r -> ru r = u.
+Proof.
+  induction l as [|x t IH]; cbn [get_run]; [discriminate|].
+  destruct (N.eqb (ru x) u) eqn:E; [intros H; injection H as <-; apply N.eqb_eq; exact E|exact IH].
+Qed.
+
+Lemma start_lands_view id u p w :
+  find_w id (p_workers p) = Some w ->
+  exists w', start_lands id u p = mkp (put_w w' (p_workers p)) (p_exited p) (p_clock p + 1) (p_quota p) (p_loaded p) /\
+             w_id w' = w_id w /\ sids w' = filter (fun x => negb (N.eqb x u)) (sids w) /\
+             In u (rids w') /\ incl (rids w) (rids w') /\ unk w' = unk w /\ w_updated w' = p_clock p + 1.
+Proof.
+  intros Hf. unfold start_lands. rewrite Hf. cbn [tick].
+  match goal with |- context [put_w ?x _] => exists x end.
+  split; [reflexivity|]. unfold sids, rids, unk. cbn. rewrite del_run_ids.
+  repeat split; auto.
+  - destruct (has_run u (w_running w)) eqn:Eh; [apply has_run_in; exact Eh|]. rewrite map_app. apply in_or_app. right.
+    destruct (get_run u (w_starting w)) as [r|] eqn:Eg; [left; apply (get_run_ru _ _ _ Eg)|left; reflexivity].
+  - destruct (has_run u (w_running w)); [apply incl_refl|]. rewrite map_app. apply incl_appl, incl_refl.
+Qed.
+
+Lemma step_lands c id u ok s s' : Inv s -> step c (LLands id u ok) s = Some s' -> Inv s'.
+Proof.
+  intros [Hn HP] H. cbn [step] in H.
+  destruct (find_w id (p_workers (spool s))) as [w|] eqn:Ef; [|discriminate].
+  destruct (memN u (map ru (w_starting w))) eqn:Em; cbn [negb] in H; [|discriminate].
+  injection H as <-. apply memN_In in Em. fold (sids w) in Em.
+  destruct s as [[p n cr] vms probes]. cbn [spool s_env s_vms s_probes pe_pool pe_next pe_create] in *.
+  destruct (start_lands_view id u p w Ef) as (w' & -> & A & B & C & Ci & D & Eu).
+  pose proof (find_w_id _ _ _ Ef) as Hid. rewrite <- Hid in Ef.
+  assert (HP1 : PInv vms probes (mkpe (mkp (put_w w' (p_workers p)) (p_exited p) (p_clock p + 1) (p_quota p) (p_loaded p)) n cr)).
+  { apply (PInv_put _ _ p n cr w w' (p_exited p) (p_clock p + 1) (fun x => negb (N.eqb x u)) HP Ef A B); try lia.
+    intros v Hv Hvid. pose proof (pi_cov _ _ _ HP v Hv) as Dv. cbn [pe_pool] in Dv. rewrite Hvid, Ef in Dv.
+    destruct Dv as [Dv|Dv]; [left; congruence|right]. intros y Hy. specialize (Dv y Hy).
+    apply in_app_iff. destruct (N.eqb y u) eqn:E; [apply N.eqb_eq in E; subst; right; exact C|].
+    apply in_app_iff in Dv. destruct Dv as [Dv|Dv]; [left; rewrite B; apply filter_In; split; [exact Dv|rewrite E; reflexivity]|right; apply Ci; exact Dv]. }
+  unfold Inv. cbn [s_vms s_probes s_env]. destruct ok; [|split; assumption].
+  apply set_procs_grow; auto; cbn [pe_pool p_workers].
+  - (* u occurred exactly once: in starting of w *)
+    pose proof (pi_mutex _ _ _ HP) as E. cbn [pe_pool] in E. unfold starting_all in *.
+    destruct (find_w_split _ _ _ Ef) as (a & b & Hl & Ha). rewrite Hl in E |- *. rewrite (put_w_split a w b w' Ha A).
+    assert (H1 : flat_map sids (a ++ w' :: b) = flat_map sids a ++ filter (fun x => negb (N.eqb x u)) (sids w) ++ flat_map sids b).
+    { rewrite flat_map_app. cbn [flat_map]. rewrite B. reflexivity. }
+    assert (H0 : flat_map sids (a ++ w :: b) = flat_map sids a ++ sids w ++ flat_map sids b).
+    { rewrite flat_map_app. cbn [flat_map]. reflexivity. }
+    cbn [p_workers]. rewrite H1. rewrite H0 in E.
+    apply NoDup_app_iff in E. destruct E as (E1 & E2 & E3).
+    apply NoDup_app_iff in E2. destruct E2 as (E4 & E5 & E6). apply NoDup_app_iff in E5. destruct E5 as (E7 & E8 & E9).
+    intros Hin. apply in_app_iff in Hin. destruct Hin as [Hin|Hin].
+    + apply (E3 u Hin). apply in_or_app. right. apply in_or_app. left. exact Em.
+    + apply in_app_iff in Hin. destruct Hin as [Hin|Hin]; [apply (E6 u Hin); apply in_or_app; left; exact Em|].
+      apply in_app_iff in Hin. destruct Hin as [Hin|Hin].
+      * apply filter_In in Hin. destruct Hin as [_ Hin]. rewrite N.eqb_refl in Hin. discriminate.
+      * exact (E9 u Em Hin).
+  - intros x Hx. rewrite <- Hid, <- A in Hx. rewrite (find_put_eq (w_id w') _ w w') in Hx; [|rewrite A; exact Ef|reflexivity].
+    injection Hx as <-. apply in_or_app. right; exact C.
+  - intros pb r Hp Hpid x Hx. rewrite <- Hid, <- A in Hx. rewrite (find_put_eq (w_id w') _ w w') in Hx; [|rewrite A; exact Ef|reflexivity].
+    injection Hx as <-. destruct (pi_probe _ _ _ HP pb r Hp) as [F1 _]. cbn [pe_pool] in F1. lia.
+Qed.
+
+(* ---------------- a probe starts ---------------- *)
+Lemma probe_begin_cases id p o p' :
+  probe_begin id p = (o, p') ->
+  (o = None /\ p' = p) \/
+  (exists w, find_w id (p_workers p) = Some w /\ o = Some (mkpb id (w_updated w) (w_st w) (p_clock p + 1)) /\ p' = snd (tick p)).
+Proof.
+  unfold probe_begin. destruct (find_w id (p_workers p)) as [w|] eqn:Ef.
+  - destruct (w_st w) eqn:Es; unfold tick; intros H; injection H as <- <-.
+    1-4: right; exists w; split; [reflexivity|split; [rewrite ?Es; reflexivity|reflexivity]].
+    left; split; reflexivity.
+  - intros H; injection H as <- <-. left; split; reflexivity.
+Qed.
+
+Lemma step_probebegin c id b1 b2 b3 b4 s s' : Inv s -> step c (LProbeBegin id b1 b2 b3 b4) s = Some s' -> Inv s'.
+Proof.
+  intros [Hn HP] H. cbn [step] in H. destruct (find_vm id (s_vms s)) as [v|] eqn:Ev; [|discriminate].
+  destruct (existsb (fun x => N.eqb (pb_id (fst x)) id) (s_probes s)); [discriminate|].
+  destruct (probe_begin id (spool s)) as [o p'] eqn:Eb.
+  destruct (probe_begin_cases _ _ _ _ Eb) as [[-> ->]|(w & Ef & -> & ->)].
+  - injection H as <-. apply Inv_frame; [split; assumption|apply pframe_refl].
+  - injection H as <-. unfold Inv. cbn [s_vms s_probes s_env]. split; [exact Hn|].
+    destruct s as [[p n cr] vms probes]. cbn [spool s_env s_vms s_probes pe_pool pe_next pe_create] in *.
+    pose proof (PInv_frame _ _ _ _ _ _ HP (tick_frame p)) as HP'. destruct HP' as [A B C D E F G].
+    constructor; try assumption.
+    intros pb r [Heq|Hin]; [|apply F; exact Hin]. injection Heq as <- <-. cbn [pb_updated pb_id pr_uuids].
+    cbn [pe_pool tick snd p_clock p_workers] in *. split.
+    + pose proof (pi_stamps _ _ _ HP w (find_w_in _ _ _ Ef)) as S. cbn [pe_pool] in S. lia.
+    + intros w' v' Hw' Hv' _. rewrite Ev in Hv'. injection Hv' as <-. apply incl_refl.
+Qed.
+
+(* ---------------- updateRunning ---------------- *)
+Lemma filter_filter {A} (f g : A -> bool) l : filter g (filter f l) = filter (fun x => f x && g x) l.
+Proof.
+  induction l as [|x r IH]; cbn [filter]; [reflexivity|].
+  destruct (f x); cbn [filter andb]; [destruct (g x); rewrite IH; reflexivity|exact IH].
+Qed.
+
+Lemma add_alive_view uuids : forall w ch w' ch',
+  add_alive uuids w ch = (w', ch') ->
+  w_id w' = w_id w /\ w_st w' = w_st w /\ w_ib w' = w_ib w /\ w_updated w' = w_updated w /\ w_probed w' = w_probed w /\
+  (exists f, sids w' = filter f (sids w)) /\ incl (rids w) (rids w') /\ (forall u, In u uuids -> In u (rids w')).
+Proof.
+  induction uuids as [|u r IH]; intros w ch w' ch'; cbn [add_alive].
+  - intros H; injection H as <- <-. repeat split; auto; [exists (fun _ => true)|apply incl_refl|intros u []].
+    clear. induction (sids w) as [|x t IH]; cbn [filter]; [reflexivity|rewrite <- IH; reflexivity].
+  - destruct (has_run u (w_running w)) eqn:Eh.
+    + intros H. destruct (IH _ _ _ _ H) as (A & B & C & D & Pb & Fs & Ir & Al). repeat split; auto.
+      intros y [<-|Hy]; [apply Ir; apply has_run_in; exact Eh|apply Al; exact Hy].
+    + destruct (get_run u (w_starting w)) as [rr|] eqn:Eg; intros H; destruct (IH _ _ _ _ H) as (A & B & C & D & Pb & (f & Fs) & Ir & Al).
+      * unfold sids, rids in *. cbn in *. rewrite del_run_ids in Fs. rewrite filter_filter in Fs.
+        repeat split; auto; [eexists; exact Fs|intros y Hy; apply Ir; rewrite map_app; apply in_or_app; left; exact Hy|].
+        intros y [<-|Hy]; [apply Ir; rewrite map_app; apply in_or_app; right; left; apply (get_run_ru _ _ _ Eg)|apply Al; exact Hy].
+      * unfold sids, rids in *. cbn in *.
+        repeat split; auto; [eexists; exact Fs|intros y Hy; apply Ir; rewrite map_app; apply in_or_app; left; exact Hy|].
+        intros y [<-|Hy]; [apply Ir; rewrite map_app; apply in_or_app; right; left; reflexivity|apply Al; exact Hy].
+Qed.
+
+Lemma close_dead_view dead : forall w ex clock w' ex' clock',
+  close_dead dead w ex clock = (w', ex', clock') ->
+  w_id w' = w_id w /\ sids w' = sids w /\ unk w' = unk w /\ clock <= clock' /\
+  (forall y, In y (rids w) -> ~ In y dead -> In y (rids w')) /\
+  (w_updated w' = w_updated w \/ clock < w_updated w') /\ (w_updated w <= clock -> w_updated w' <= clock').
+Proof.
+  induction dead as [|u r IH]; intros w ex clock w' ex' clock'; cbn [close_dead].
+  - intros H; injection H as <- <- <-. repeat split; auto; lia.
+  - destruct (close_runner u w ex clock) as [[w1 ex1] c1] eqn:Ec. intros H.
+    destruct (close_runner_view _ _ _ _ _ _ _ Ec) as (A & B & C & D & L & St & U).
+    destruct (IH _ _ _ _ _ _ H) as (A' & B' & D' & L' & K' & St' & U').
+    split; [congruence|]. split; [congruence|]. split; [congruence|]. split; [lia|]. split; [|split].
+    + intros y Hy Hn. apply K'; [|intros Hin; apply Hn; right; exact Hin]. rewrite C. apply filter_In. split; [exact Hy|].
+      destruct (N.eqb y u) eqn:E; [apply N.eqb_eq in E; subst; exfalso; apply Hn; left; reflexivity|reflexivity].
+    + destruct St' as [St'|St']; [|right; lia]. destruct St as [St|St]; [left; congruence|right; lia].
+    + intros Hu. apply U'. specialize (U Hu). lia.
+Qed.
+
+Lemma update_running_view uuids w ex clock w' ex' clock' ch :
+  update_running uuids w ex clock = (w', ex', clock', ch) ->
+  w_id w' = w_id w /\ (exists f, sids w' = filter f (sids w)) /\ unk w' = unk w /\ clock <= clock' /\
+  (forall u, In u uuids -> In u (rids w')) /\
+  (w_updated w' = w_updated w \/ clock < w_updated w') /\ (w_updated w <= clock -> w_updated w' <= clock').
+Proof.
+  unfold update_running. destruct (add_alive uuids w false) as [w1 ch1] eqn:Ea.
+  destruct (close_dead (filter (fun u => negb (memN u uuids)) (map ru (w_running w1))) w1 ex clock) as [[w2 ex2] c2] eqn:Ec.
+  intros H; injection H as <- <- <- <-.
+  destruct (add_alive_view _ _ _ _ _ Ea) as (A & B & C & D & Pb & (f & Fs) & Ir & Al).
+  destruct (close_dead_view _ _ _ _ _ _ _ Ec) as (A' & B' & D' & L' & K' & St' & U').
+  split; [congruence|]. split; [exists f; congruence|]. split; [unfold unk in *; congruence|]. split; [exact L'|].
+  split; [|split].
+  - intros u Hu. apply K'; [apply Al; exact Hu|]. intros Hin. apply filter_In in Hin. destruct Hin as [_ Hin].
+    apply negb_true_iff in Hin. assert (memN u uuids = true) by (apply memN_In; exact Hu). congruence.
+  - rewrite <- D. exact St'.
+  - rewrite <- D. exact U'.
+Qed.
+
+(* ---------------- a probe is applied ---------------- *)
+Lemma shutdown_if_broken_view c dur w clock w' clock' :
+  shutdown_if_broken c dur w clock = (w', clock') ->
+  w_id w' = w_id w /\ sids w' = sids w /\ rids w' = rids w /\ clock <= clock' /\
+  (unk w' = unk w \/ w_st w' = WShutdown) /\
+  (w_updated w' = w_updated w \/ clock < w_updated w') /\ (w_updated w <= clock -> w_updated w' <= clock').
+Proof.
+  unfold shutdown_if_broken. destruct (w_ib w); try (intros H; injection H as <- <-; repeat split; auto; lia).
+  - destruct (dur <? _); intros H; injection H as <- <-; unfold sids, rids, unk; cbn; repeat split; auto; try lia.
+  - destruct (dur <? _); intros H; injection H as <- <-; unfold sids, rids, unk; cbn; repeat split; auto; try lia.
+Qed.
+
+Lemma probe_end_view c pb r p w :
+  find_w (pb_id pb) (p_workers p) = Some w -> w_updated w <= p_clock p -> pb_updated pb <= p_clock p ->
+  exists w' ex' clock',
+    probe_end c pb r p = mkp (put_w w' (p_workers p)) ex' clock' (p_quota p) (p_loaded p) /\
+    w_id w' = w_id w /\ p_clock p <= clock' /\
+    (exists f, sids w' = filter f (sids w)) /\
+    (w_updated w' = w_updated w \/ p_clock p < w_updated w') /\ w_updated w' <= clock' /\
+    ((sids w' = sids w /\ rids w' = rids w /\ (unk w' = unk w \/ (unk w = true /\ w_st w' = WShutdown))) \/
+     (w_updated w = pb_updated pb /\ forall y, In y (pr_uuids r) -> In y (rids w'))).
+Proof.
+  intros Hf Hst Hpb. unfold probe_end. rewrite Hf.
+  set (booted := probe_booted pb r). set (listed := probe_lists pb r). set (ok := listed && pr_list_ok r).
+  set (uuids := if ok then pr_uuids r else []).
+  (* the stale-run-lock bookkeeping changes only w_stale and the clock *)
+  assert (H0 : exists w0 clock0 bs,
+     (if ok then
+        if negb (pr_stale r) then (with_stale w 0, p_clock p, false)
+        else if w_stale w =? 0 then (with_stale w (p_clock p + 1), p_clock p + 1, false)
+        else (w, p_clock p + 1, t_stale c <? p_clock p + 1 - w_stale w)
+      else (w, p_clock p, false)) = (w0, clock0, bs) /\
+     w_id w0 = w_id w /\ sids w0 = sids w /\ rids w0 = rids w /\ unk w0 = unk w /\ w_st w0 = w_st w /\ w_updated w0 = w_updated w /\
+     p_clock p <= clock0).
+  { destruct ok; [destruct (negb (pr_stale r)); [|destruct (w_stale w =? 0)]|];
+      eexists _, _, _; (split; [reflexivity|]); unfold sids, rids, unk; cbn; repeat split; auto; lia. }
+  destruct H0 as (w0 & clock0 & bs & -> & I0 & S0 & R0 & U0 & T0 & D0 & L0).
+  set (broken := ok && (pr_broken r || bs)).
+  assert (H1 : exists w1 clock1,
+     (if broken && ibeh_eqb (w_ib w0) IRun then set_idle_behavior c w0 IDrain clock0 else (w0, clock0)) = (w1, clock1) /\
+     w_id w1 = w_id w /\ sids w1 = sids w /\ rids w1 = rids w /\ unk w1 = unk w /\
+     (w_updated w1 = w_updated w \/ clock0 < w_updated w1) /\ w_updated w1 <= clock1 /\ clock0 <= clock1).
+  { destruct (broken && ibeh_eqb (w_ib w0) IRun).
+    - destruct (set_idle_behavior c w0 IDrain clock0) as [w1 clock1] eqn:E1. exists w1, clock1. split; [reflexivity|].
+      destruct (set_idle_behavior_frame _ _ _ _ _ _ E1) as ((A & B & C & D & E) & L & U).
+      split; [congruence|]. split; [congruence|]. split; [congruence|]. split; [congruence|]. split; [rewrite <- D0; exact E|].
+      split; [apply U; lia|exact L].
+    - exists w0, clock0. split; [reflexivity|]. repeat split; auto; lia. }
+  destruct H1 as (w1 & clock1 & -> & I1 & S1 & R1 & U1 & D1 & B1 & L1).
+  destruct (negb ok || (negb booted && match uuids with [] => true | _ => false end && match w_running w1 with [] => true | _ => false end)) eqn:Hbr.
+  - (* the probe failed: boot/probe timeout handling only *)
+    destruct (wstate_eqb (w_st w1) WShutdown && (pb_updated pb <? w_updated w1)).
+    + exists w1, (p_exited p), clock1. split; [reflexivity|]. split; [exact I1|]. split; [lia|].
+      split; [exists (fun _ => true); rewrite S1; clear; induction (sids w) as [|x t IH]; cbn [filter]; [reflexivity|rewrite <- IH; reflexivity]|].
+      split; [destruct D1 as [D1|D1]; [left; exact D1|right; lia]|]. split; [exact B1|].
+      left. split; [exact S1|]. split; [exact R1|]. left; exact U1.
+    + destruct (shutdown_if_broken c (pb_start pb - w_probed w1) w1 clock1) as [w2 clock2] eqn:E2.
+      destruct (shutdown_if_broken_view _ _ _ _ _ _ E2) as (A & B & C & L & Uk & St & U).
+      exists w2, (p_exited p), clock2. split; [reflexivity|]. split; [congruence|]. split; [lia|].
+      split; [exists (fun _ => true); rewrite B, S1; clear; induction (sids w) as [|x t IH]; cbn [filter]; [reflexivity|rewrite <- IH; reflexivity]|].
+      split; [destruct St as [St|St]; [destruct D1 as [D1|D1]; [left; congruence|right; lia]|right; lia]|]. split; [apply U; exact B1|].
+      left. split; [congruence|]. split; [congruence|].
+      destruct Uk as [Uk|Uk]; [left; congruence|]. destruct (unk w) eqn:Euw; [right; split; [reflexivity|exact Uk]|left].
+      rewrite <- U1 in Euw. unfold unk in *. rewrite Uk. reflexivity.
+  - (* the probe succeeded *)
+    set (update_time := clock1 + 1).
+    destruct (negb (pb_updated pb =? w_updated (with_probed w1 update_time))) eqn:Estale.
+    + (* stale: only `probed` changes *)
+      exists (with_probed w1 update_time), (p_exited p), update_time. split; [reflexivity|]. split; [exact I1|]. split; [unfold update_time; lia|].
+      split; [exists (fun _ => true); unfold sids in *; cbn; rewrite S1; clear; induction (map ru (w_starting w)) as [|x t IH]; cbn [filter]; [reflexivity|rewrite <- IH; reflexivity]|].
+      split; [cbn; destruct D1 as [D1|D1]; [left; exact D1|right; lia]|]. split; [cbn; unfold update_time; lia|].
+      left. unfold sids, rids, unk in *. cbn. split; [exact S1|]. split; [exact R1|]. left; exact U1.
+    + apply negb_false_iff in Estale. apply Z.eqb_eq in Estale. cbn [w_updated with_probed] in Estale.
+      assert (Hfresh : w_updated w = pb_updated pb).
+      { destruct D1 as [D1|D1]; [congruence|]. exfalso. lia. }
+      assert (Hok : ok = true).
+      { destruct ok; [reflexivity|]. cbn in Hbr. discriminate. }
+      assert (Hu : uuids = pr_uuids r) by (unfold uuids; rewrite Hok; reflexivity).
+      set (w2 := with_probed w1 update_time).
+      set (w3 := match uuids with
+                 | u :: _ => with_last (with_busy w2 update_time) u
+                 | [] => match w_running w2 with [] => w2 | _ => with_busy w2 update_time end
+                 end).
+      assert (V3 : w_id w3 = w_id w /\ sids w3 = sids w /\ rids w3 = rids w /\ unk w3 = unk w /\ w_updated w3 = w_updated w1).
+      { unfold w3, w2. destruct uuids; [destruct (w_running (with_probed w1 update_time))|];
+          unfold sids, rids, unk in *; cbn; repeat split; auto. }
+      destruct V3 as (I3 & S3 & R3 & U3 & D3).
+      destruct (update_running uuids w3 (p_exited p) update_time) as [[[w4 ex4] clock4] changed0] eqn:Eu.
+      destruct (update_running_view _ _ _ _ _ _ _ _ Eu) as (I4 & (f & S4) & U4 & L4 & Al4 & St4 & Ub4).
+      set (first_boot := booted && (wstate_eqb (w_st w4) WUnknown || wstate_eqb (w_st w4) WBooting)).
+      set (w5 := if first_boot then with_st w4 WIdle else w4).
+      assert (V5 : w_id w5 = w_id w4 /\ sids w5 = sids w4 /\ rids w5 = rids w4 /\ w_updated w5 = w_updated w4).
+      { unfold w5. destruct first_boot; unfold sids, rids; cbn; auto. }
+      destruct V5 as (I5 & S5 & R5 & D5).
+      assert (Hw3u : w_updated w3 <= update_time) by (unfold update_time; lia).
+      destruct (negb (changed0 || first_boot)).
+      * exists w5, ex4, clock4. split; [reflexivity|]. split; [congruence|]. split; [unfold update_time in *; lia|].
+        split; [exists f; congruence|].
+        split; [rewrite D5; destruct St4 as [St4|St4]; [destruct D1 as [D1|D1]; [left; congruence|right; lia]|right; unfold update_time in *; lia]|].
+        split; [rewrite D5; apply Ub4; exact Hw3u|].
+        right. split; [exact Hfresh|]. intros y Hy. rewrite R5. apply Al4. rewrite Hu. exact Hy.
+      * set (w6 := if wstate_eqb (w_st w5) WIdle && negb (Nat.eqb (nrun w5) 0) then with_st w5 WRunning
+                   else if wstate_eqb (w_st w5) WRunning && Nat.eqb (nrun w5) 0 then with_st w5 WIdle else w5).
+        assert (V6 : w_id w6 = w_id w5 /\ sids w6 = sids w5 /\ rids w6 = rids w5).
+        { unfold w6. destruct (wstate_eqb (w_st w5) WIdle && negb (Nat.eqb (nrun w5) 0)); [unfold sids, rids; cbn; auto|].
+          destruct (wstate_eqb (w_st w5) WRunning && Nat.eqb (nrun w5) 0); unfold sids, rids; cbn; auto. }
+        destruct V6 as (I6 & S6 & R6).
+        exists (with_updated w6 update_time), ex4, clock4. split; [reflexivity|].
+        unfold sids, rids in *. cbn. split; [congruence|]. split; [unfold update_time in *; lia|].
+        split; [exists f; congruence|]. split; [right; unfold update_time; lia|]. split; [lia|].
+        right. split; [exact Hfresh|]. intros y Hy. rewrite R6, R5. apply Al4. rewrite Hu. exact Hy.
+Qed.
+
+Lemma filter_true_id {A} (l : list A) : filter (fun _ => true) l = l.
+Proof. induction l as [|x r IH]; cbn [filter]; [reflexivity|rewrite IH; reflexivity]. Qed.
+
+Lemma step_probeend c id s s' : Inv s -> step c (LProbeEnd id) s = Some s' -> Inv s'.
+Proof.
+  intros [Hn HP] H. cbn [step] in H.
+  destruct (filter (fun x => N.eqb (pb_id (fst x)) id) (s_probes s)) as [|[pb r] rest0] eqn:Efl; [discriminate|].
+  assert (Hin : In (pb, r) (s_probes s) /\ pb_id pb = id).
+  { assert (In (pb, r) (filter (fun x => N.eqb (pb_id (fst x)) id) (s_probes s))) by (rewrite Efl; left; reflexivity).
+    apply filter_In in H0. destruct H0 as [H0 H1]. apply N.eqb_eq in H1. auto. }
+  destruct Hin as [Hin Hpid].
+  set (p := spool s) in *. set (p' := probe_end c pb r p) in *.
+  set (rest := filter (fun x => negb (N.eqb (pb_id (fst x)) id)) (s_probes s)) in *.
+  match type of H with (if ?b then _ else _) = _ => destruct b eqn:Ebad end; [discriminate|].
+  injection H as <-. unfold Inv. cbn [s_vms s_probes s_env]. split; [exact Hn|].
+  destruct s as [[p0 n cr] vms probes]. cbn [spool s_env s_vms s_probes pe_pool pe_next pe_create] in *. subst p.
+  (* the remaining probes are a subset *)
+  assert (HPr : PInv vms rest (mkpe p0 n cr)).
+  { destruct HP as [A B C D E F G]. constructor; try assumption. intros pb' r' Hin'. apply F.
+    unfold rest in Hin'. apply filter_In in Hin'. tauto. }
+  destruct (find_w (pb_id pb) (p_workers p0)) as [w|] eqn:Ef.
+  2:{ (* the worker is gone: the probe has no effect *)
+      unfold p', probe_end. rewrite Ef. destruct p0; exact HPr. }
+  destruct (pi_probe _ _ _ HP pb r Hin) as [F1 F2]. cbn [pe_pool] in F1, F2.
+  pose proof (pi_stamps _ _ _ HP w (find_w_in _ _ _ Ef)) as Hst. cbn [pe_pool] in Hst.
+  destruct (probe_end_view c pb r p0 w Ef Hst F1) as (w' & ex' & clock' & Hpe & A & L & (f & Fs) & St & Ub & Hcase).
+  unfold p' in *. rewrite Hpe in *.
+  pose proof (find_w_id _ _ _ Ef) as Hid. rewrite <- Hid in Ef.
+  apply (PInv_put _ _ p0 n cr w w' ex' clock' f HPr Ef A Fs); auto.
+  intros v Hv Hvid. pose proof (pi_cov _ _ _ HP v Hv) as Dv. cbn [pe_pool] in Dv. rewrite Hvid, Ef in Dv.
+  destruct Hcase as [(S1 & R1 & Uk)|(Hfresh & Hall)].
+  - rewrite S1, R1. destruct Uk as [Uk|[Uk Hsh]]; [destruct Dv as [Dv|Dv]; [left; congruence|right; exact Dv]|].
+    (* an Unknown worker was given up: guard A3 *)
+    right. rewrite Hpid in *. rewrite Hid in Ef.
+    cbn [p_workers] in Ebad. rewrite Ef in Ebad.
+    rewrite <- Hid, <- A in Ebad. rewrite (find_put_eq (w_id w') _ w w') in Ebad; [|rewrite A, Hid; exact Ef|reflexivity].
+    assert (Hfv : find_vm id vms = Some v).
+    { rewrite <- Hid, <- Hvid. apply in_find_vm; assumption. }
+    rewrite A, Hid, Hfv in Ebad. unfold unk in Uk. rewrite Uk in Ebad. rewrite Hsh in Ebad. cbn [wstate_eqb andb] in Ebad.
+    apply negb_false_iff in Ebad. rewrite forallb_forall in Ebad. intros y Hy. specialize (Ebad y Hy).
+    apply memN_In in Ebad. unfold wbook in Ebad. fold (sids w') in Ebad. fold (rids w') in Ebad. rewrite S1, R1 in Ebad. exact Ebad.
+  - right. assert (Hfv : find_vm (pb_id pb) vms = Some v).
+    { rewrite Hid in Hvid. rewrite <- Hvid. apply in_find_vm; assumption. }
+    rewrite Hid in Ef. intros y Hy. apply in_or_app. right. apply Hall. apply (F2 w v Ef Hfv Hfresh). exact Hy.
+Qed.
+
+(* ---------------- Pool.sync ---------------- *)
+Definition isnew (c0 : Z) (w : wkr) : Prop := sids w = [] /\ rids w = [] /\ unk w = true /\ c0 < w_updated w.
+(* ws1 consists of reframed versions of the workers of ws0 followed by newly appeared (Unknown) workers *)
+Definition SR (c0 : Z) (ws0 ws1 : list wkr) : Prop :=
+  exists olds news, ws1 = olds ++ news /\ Forall2 (wframe c0) ws0 olds /\ Forall (isnew c0) news.
+
+Lemma put_w_app w' a b :
+  put_w w' (a ++ b) = match find_w (w_id w') a with Some _ => put_w w' a ++ b | None => a ++ put_w w' b end.
+Proof.
+  induction a as [|x r IH]; cbn [app put_w find_w]; [reflexivity|].
+  destruct (N.eqb (w_id x) (w_id w')) eqn:E; [reflexivity|]. rewrite IH.
+  destruct (find_w (w_id w') r); reflexivity.
+Qed.
+
+Lemma Forall2_frame_put c0 ws0 olds w w' :
+  Forall2 (wframe c0) ws0 olds -> find_w (w_id w') olds = Some w -> wframe c0 w w' ->
+  Forall2 (wframe c0) ws0 (put_w w' olds).
+Proof.
+  intros F. revert w. induction F as [|x y r r' Hxy Hr IH]; intros w Hf Hw; cbn [put_w find_w] in *; [constructor|].
+  destruct (N.eqb (w_id y) (w_id w')) eqn:E.
+  - injection Hf as ->. constructor; [eapply wframe_trans; eauto|exact Hr].
+  - constructor; [exact Hxy|eapply IH; eauto].
+Qed.
+Lemma Forall_new_put c0 news w w' :
+  Forall (isnew c0) news -> find_w (w_id w') news = Some w -> wframe c0 w w' -> Forall (isnew c0) (put_w w' news).
+Proof.
+  induction 1 as [|y r Hy Hr IH]; intros Hf Hw; cbn [put_w find_w] in *; [constructor|].
+  destruct (N.eqb (w_id y) (w_id w')) eqn:E.
+  - injection Hf as ->. constructor; [|exact Hr]. destruct Hy as (A & B & C & D). destruct Hw as (_ & A' & B' & C' & D').
+    unfold isnew. split; [congruence|]. split; [congruence|]. split; [congruence|]. destruct D' as [D'|D']; lia.
+  - constructor; [exact Hy|apply IH; assumption].
+Qed.
+
+Lemma SR_put c0 ws0 ws w w' :
+  SR c0 ws0 ws -> find_w (w_id w') ws = Some w -> wframe c0 w w' -> SR c0 ws0 (put_w w' ws).
+Proof.
+  intros (olds & news & -> & Fo & Fn) Hf Hw. rewrite put_w_app. rewrite find_app in Hf.
+  destruct (find_w (w_id w') olds) as [x|] eqn:Eo.
+  - injection Hf as ->. exists (put_w w' olds), news. split; [reflexivity|]. split; [eapply Forall2_frame_put; eauto|exact Fn].
+  - exists olds, (put_w w' news). split; [reflexivity|]. split; [exact Fo|eapply Forall_new_put; eauto].
+Qed.
+Lemma SR_add c0 ws0 ws w : SR c0 ws0 ws -> isnew c0 w -> SR c0 ws0 (ws ++ [w]).
+Proof.
+  intros (olds & news & -> & Fo & Fn) Hw. exists olds, (news ++ [w]). split; [rewrite app_assoc; reflexivity|].
+  split; [exact Fo|]. apply Forall_app. split; [exact Fn|constructor; [exact Hw|constructor]].
+Qed.
+
+Definition fst3 (x : N * N * ibeh) : N := fst (fst x).
+
+Lemma sync_listed_SR c c0 ws0 listed : forall ws clock ws1 clock1,
+  c0 <= clock -> SR c0 ws0 ws -> (forall w, In w ws -> w_updated w <= clock) ->
+  sync_listed c listed ws clock = (ws1, clock1) ->
+  SR c0 ws0 ws1 /\ clock <= clock1 /\ (forall w, In w ws1 -> w_updated w <= clock1) /\
+  (forall id, In id (map fst3 listed) -> exists w, find_w id ws1 = Some w /\ c0 < w_updated w) /\
+  (forall id w0, find_w id ws = Some w0 -> c0 < w_updated w0 -> exists w, find_w id ws1 = Some w /\ c0 < w_updated w) /\
+  (forall id, find_w id ws1 <> None -> find_w id ws <> None \/ In id (map fst3 listed)).
+Proof.
+  induction listed as [|[[id it] ib] r IH]; intros ws clock ws1 clock1 Hc HS Hst; cbn [sync_listed].
+  - intros H; injection H as <- <-. split; [exact HS|]. split; [lia|]. split; [exact Hst|].
+    split; [intros x []|]. split; [intros x w0 Hf Hu; eauto|intros x Hx; left; exact Hx].
+  - destruct (find_w id ws) as [w|] eqn:Ef.
+    + pose proof (find_w_id _ _ _ Ef) as Hid.
+      set (w1 := with_updated w (clock + 1)).
+      assert (F1 : wframe c0 w w1) by (unfold wframe, w1, sids, rids, unk; cbn; intuition lia).
+      destruct (wstate_eqb (w_st w1) WShutdown && (t_shutdown c <? clock + 1 + 1 - w_destroyed w1)) eqn:Eret; intros H.
+      * set (w2 := w_shutdown (clock + 1 + 1) w1) in *.
+        assert (F2 : wframe c0 w w2).
+        { apply andb_true_iff in Eret. destruct Eret as [Es _]. unfold wframe, w2, w1, sids, rids, unk in *; cbn in *.
+          destruct (w_st w); cbn in *; try discriminate. intuition lia. }
+        assert (Hid2 : w_id w2 = id) by (unfold w2, w1; cbn; exact Hid).
+        assert (HS' : SR c0 ws0 (put_w w2 ws)) by (apply (SR_put c0 ws0 ws w w2 HS); [rewrite Hid2; exact Ef|exact F2]).
+        assert (Hst' : forall x, In x (put_w w2 ws) -> w_updated x <= clock + 1 + 1).
+        { intros x Hx. apply in_put in Hx. destruct Hx as [->|Hx]; [unfold w2; cbn; lia|specialize (Hst x Hx); lia]. }
+        assert (Hc2 : c0 <= clock + 1 + 1) by lia.
+        destruct (IH _ _ _ _ Hc2 HS' Hst' H) as (R1 & R2 & R3 & R4 & R5 & R6).
+        split; [exact R1|]. split; [lia|]. split; [exact R3|]. split; [|split].
+        -- intros x [<-|Hx]; [|apply R4; exact Hx]. cbn [fst3 fst].
+           apply (R5 id w2); [rewrite <- Hid2; apply (find_put_eq (w_id w2) ws w w2); [rewrite Hid2; exact Ef|reflexivity]|unfold w2; cbn; lia].
+        -- intros x w0 Hf0 Hu0. destruct (N.eq_dec x id) as [->|Hne].
+           ++ apply (R5 id w2); [rewrite <- Hid2; apply (find_put_eq (w_id w2) ws w w2); [rewrite Hid2; exact Ef|reflexivity]|unfold w2; cbn; lia].
+           ++ apply (R5 x w0); [rewrite find_put_neq; [exact Hf0|rewrite Hid2; exact Hne]|exact Hu0].
+        -- intros x Hx. destruct (R6 x Hx) as [Hy|Hy]; [|right; right; exact Hy].
+           destruct (N.eq_dec x id) as [->|Hne]; [left; rewrite Ef; discriminate|]. left. rewrite find_put_neq in Hy; [exact Hy|rewrite Hid2; exact Hne].
+      * assert (Hid1 : w_id w1 = id) by (unfold w1; cbn; exact Hid).
+        assert (HS' : SR c0 ws0 (put_w w1 ws)) by (apply (SR_put c0 ws0 ws w w1 HS); [rewrite Hid1; exact Ef|exact F1]).
+        assert (Hst' : forall x, In x (put_w w1 ws) -> w_updated x <= clock + 1).
+        { intros x Hx. apply in_put in Hx. destruct Hx as [->|Hx]; [unfold w1; cbn; lia|specialize (Hst x Hx); lia]. }
+        assert (Hc2 : c0 <= clock + 1) by lia.
+        destruct (IH _ _ _ _ Hc2 HS' Hst' H) as (R1 & R2 & R3 & R4 & R5 & R6).
+        split; [exact R1|]. split; [lia|]. split; [exact R3|]. split; [|split].
+        -- intros x [<-|Hx]; [|apply R4; exact Hx]. cbn [fst3 fst].
+           apply (R5 id w1); [rewrite <- Hid1; apply (find_put_eq (w_id w1) ws w w1); [rewrite Hid1; exact Ef|reflexivity]|unfold w1; cbn; lia].
+        -- intros x w0 Hf0 Hu0. destruct (N.eq_dec x id) as [->|Hne].
+           ++ apply (R5 id w1); [rewrite <- Hid1; apply (find_put_eq (w_id w1) ws w w1); [rewrite Hid1; exact Ef|reflexivity]|unfold w1; cbn; lia].
+           ++ apply (R5 x w0); [rewrite find_put_neq; [exact Hf0|rewrite Hid1; exact Hne]|exact Hu0].
+        -- intros x Hx. destruct (R6 x Hx) as [Hy|Hy]; [|right; right; exact Hy].
+           destruct (N.eq_dec x id) as [->|Hne]; [left; rewrite Ef; discriminate|]. left. rewrite find_put_neq in Hy; [exact Hy|rewrite Hid1; exact Hne].
+    + intros H. set (wn := new_worker id it WUnknown ib (clock + 1)) in *.
+      assert (Hn : isnew c0 wn) by (unfold isnew, wn, sids, rids, unk; cbn; intuition lia).
+      assert (HS' : SR c0 ws0 (ws ++ [wn])) by (apply SR_add; assumption).
+      assert (Hst' : forall x, In x (ws ++ [wn]) -> w_updated x <= clock + 1).
+      { intros x Hx. apply in_app_or in Hx. destruct Hx as [Hx|[<-|[]]]; [specialize (Hst x Hx); lia|unfold wn; cbn; lia]. }
+      assert (Hc2 : c0 <= clock + 1) by lia.
+      destruct (IH _ _ _ _ Hc2 HS' Hst' H) as (R1 & R2 & R3 & R4 & R5 & R6).
+      assert (Hfn : find_w id (ws ++ [wn]) = Some wn).
+      { rewrite find_app, Ef. cbn [find_w]. unfold wn at 1. cbn [w_id new_worker]. rewrite N.eqb_refl. reflexivity. }
+      split; [exact R1|]. split; [lia|]. split; [exact R3|]. split; [|split].
+      * intros x [<-|Hx]; [|apply R4; exact Hx]. cbn [fst3 fst]. apply (R5 id wn Hfn). unfold wn; cbn; lia.
+      * intros x w0 Hf0 Hu0. apply (R5 x w0); [rewrite find_app, Hf0; reflexivity|exact Hu0].
+      * intros x Hx. destruct (R6 x Hx) as [Hy|Hy]; [|right; right; exact Hy].
+        rewrite find_app in Hy. destruct (find_w x ws) eqn:Ex; [left; discriminate|].
+        cbn [find_w] in Hy. destruct (N.eqb (w_id wn) x) eqn:E; [|contradiction].
+        apply N.eqb_eq in E. right. left. cbn [fst3 fst]. unfold wn in E. cbn in E. exact E.
+Qed.
+
+Lemma sync_listed_nodup c listed : forall ws clock ws1 clock1,
+  NoDup (map w_id ws) -> sync_listed c listed ws clock = (ws1, clock1) -> NoDup (map w_id ws1).
+Proof.
+  induction listed as [|[[id it] ib] r IH]; intros ws clock ws1 clock1 Hn; cbn [sync_listed].
+  - intros H; injection H as <- <-. exact Hn.
+  - destruct (find_w id ws) as [w|] eqn:Ef.
+    + destruct (wstate_eqb _ _ && _); intros H; eapply IH; try exact H; rewrite put_w_ids; exact Hn.
+    + intros H. eapply IH; [|exact H]. rewrite map_app. cbn [map new_worker w_id].
+      apply NoDup_app_iff. split; [exact Hn|]. split; [repeat constructor; intros []|].
+      intros x Hx [<-|[]]. apply find_w_none in Ef. contradiction.
+Qed.
+
+Lemma find_filter_keep (keep : wkr -> bool) id ws w :
+  find_w id ws = Some w -> keep w = true -> find_w id (filter keep ws) = Some w.
+Proof.
+  induction ws as [|x r IH]; cbn [find_w filter]; [discriminate|].
+  destruct (N.eqb (w_id x) id) eqn:E.
+  - intros H Hk; injection H as ->. rewrite Hk. cbn [find_w]. rewrite E. reflexivity.
+  - intros H Hk. destruct (keep x); cbn [find_w]; [rewrite E|]; apply IH; assumption.
+Qed.
+
+Lemma map_fst_combine {A B} (l : list A) (l' : list B) : (List.length l <= List.length l')%nat -> map fst (combine l l') = l.
+Proof.
+  revert l'. induction l as [|x r IH]; intros l' H; [reflexivity|]. destruct l' as [|y r']; cbn in H; [lia|].
+  cbn [combine map fst]. rewrite IH; [reflexivity|lia].
+Qed.
+
+Lemma step_poolsync c tags s s' : Inv s -> step c (LPoolSync tags) s = Some s' -> Inv s'.
+Proof.
+  intros [Hn HP] H. cbn [step] in H. injection H as <-. unfold Inv. cbn [s_vms s_probes s_env]. split; [exact Hn|].
+  destruct s as [[p n cr] vms probes]. cbn [spool s_env s_vms s_probes pe_pool pe_next pe_create] in *.
+  set (listed := map (fun vt => (v_id (fst vt), v_it (fst vt), snd vt)) (combine vms (tags ++ repeat IRun (List.length vms)))).
+  assert (Hlisted : map fst3 listed = map v_id vms).
+  { unfold listed. rewrite map_map. cbn [fst3 fst]. rewrite <- (map_map fst v_id). rewrite map_fst_combine; [reflexivity|].
+    rewrite app_length, repeat_length. lia. }
+  unfold pool_sync. cbn [tick p_workers p_clock p_exited p_quota p_loaded].
+  destruct (sync_listed c listed (p_workers p) (p_clock p + 1)) as [ws1 clock1] eqn:Es.
+  destruct HP as [A B C D E F G]. cbn [pe_pool pe_next] in *.
+  set (c0 := p_clock p + 1) in *.
+  assert (HS0 : SR c0 (p_workers p) (p_workers p)).
+  { exists (p_workers p), []. split; [rewrite app_nil_r; reflexivity|]. split; [apply Forall2_refl_frame|constructor]. }
+  assert (Hst0 : forall w, In w (p_workers p) -> w_updated w <= c0) by (intros w Hw; specialize (G w Hw); unfold c0; lia).
+  destruct (sync_listed_SR c c0 (p_workers p) listed _ _ _ _ (Z.le_refl _) HS0 Hst0 Es) as ((olds & news & Hws & Fo & Fn) & L & St & R4 & R5 & R6).
+  pose proof (sync_listed_nodup _ _ _ _ _ _ A Es) as Hnd.
+  set (keep := fun w => c0 <? w_updated w).
+  unfold set_pool. cbn [s_env s_vms s_probes pe_pool pe_next pe_create].
+  constructor; cbn [pe_pool pe_next p_workers p_clock].
+  - apply NoDup_map_filter. exact Hnd.
+  - intros w Hw. apply filter_In in Hw. destruct Hw as [Hw _].
+    destruct (in_find _ _ Hw) as (w' & Hf).
+    destruct (R6 (w_id w) ltac:(rewrite Hf; discriminate)) as [Ho|Hl].
+    + destruct (find_w (w_id w) (p_workers p)) as [w0|] eqn:E0; [|contradiction].
+      rewrite <- (find_w_id _ _ _ E0). apply B. eapply find_w_in; eauto.
+    + rewrite Hlisted in Hl. apply in_map_iff in Hl. destruct Hl as (v & <- & Hv). apply C. exact Hv.
+  - exact C.
+  - intros v Hv. assert (Hl : In (v_id v) (map fst3 listed)) by (rewrite Hlisted; apply in_map; exact Hv).
+    destruct (R4 _ Hl) as (w & Hf & Hu).
+    rewrite (find_filter_keep keep _ _ _ Hf) by (unfold keep; apply Z.ltb_lt; exact Hu).
+    rewrite Hws, find_app in Hf. pose proof (frame_find _ _ _ (v_id v) Fo) as Hff.
+    destruct (find_w (v_id v) olds) as [wo|] eqn:Eo.
+    + injection Hf as ->. specialize (D v Hv). destruct (find_w (v_id v) (p_workers p)) as [w0|]; [|contradiction].
+      destruct Hff as (_ & Hs & Hr & Huk & _). rewrite Hs, Hr, Huk. exact D.
+    + left. apply find_w_in in Hf. rewrite Forall_forall in Fn. exact (proj1 (proj2 (proj2 (Fn w Hf)))).
+  - unfold starting_all in *. cbn [p_workers]. rewrite Hws, filter_app, flat_map_app.
+    assert (Hnews : flat_map sids (filter keep news) = []).
+    { clear -Fn. induction news as [|x r IH]; cbn [filter flat_map]; [reflexivity|].
+      apply Forall_cons_iff in Fn. destruct Fn as [(Hx & _) Fr]. destruct (keep x); cbn [flat_map]; [rewrite Hx|]; apply IH; exact Fr. }
+    rewrite Hnews, app_nil_r. rewrite <- (frame_starting _ _ _ Fo) in E.
+    apply NoDup_app_iff in E. destruct E as (E1 & E2 & E3). apply NoDup_app_iff. split; [exact E1|]. split.
+    + pose proof (NoDup_flat_filter sids keep olds [] ltac:(rewrite app_nil_r; exact E2)) as X. rewrite app_nil_r in X. exact X.
+    + intros x Hx Hin. apply (E3 x Hx). apply in_flat_map in Hin. destruct Hin as (w & Hw & Hxw). apply in_flat_map.
+      exists w. apply filter_In in Hw. tauto.
+  - intros pb r Hp. destruct (F pb r Hp) as [F1 F2]. split; [lia|]. intros w v Hw Hv Hstamp. exfalso.
+    apply find_w_in in Hw. apply filter_In in Hw. destruct Hw as [_ Hk]. unfold keep in Hk. apply Z.ltb_lt in Hk. unfold c0 in *. lia.
+  - intros w Hw. apply filter_In in Hw. destruct Hw as [Hw _]. apply St. exact Hw.
+Qed.
+
+(* ---------------- a scheduling pass ---------------- *)
+Lemma kill_in_false u ws ws' : kill_in u ws = (false, ws') ->
+  ws' = ws /\ forall w, In w ws -> ~ In u (sids w) /\ ~ In u (rids w).
+Proof.
+  revert ws'. induction ws as [|w r IH]; intros ws'; cbn [kill_in].
+  - intros H; injection H as <-. split; [reflexivity|intros w []].
+  - destruct (has_run u (w_running w)) eqn:E1; [discriminate|].
+    destruct (has_run u (w_starting w)) eqn:E2; [discriminate|].
+    destruct (kill_in u r) as [b r'] eqn:Ek. intros H; injection H as -> <-.
+    destruct (IH _ eq_refl) as [-> Hall]. split; [reflexivity|].
+    intros x [<-|Hx]; [|apply Hall; exact Hx]. split; intros Hin; apply has_run_in in Hin; congruence.
+Qed.
+
+Lemma pick_latest_in it ws : forall best w,
+  pick_latest it ws best = Some w -> (In w ws /\ start_candidate it w = true) \/ best = Some w.
+Proof.
+  induction ws as [|x r IH]; intros best w; cbn [pick_latest]; [intros ->; right; reflexivity|].
+  destruct (start_candidate it x) eqn:Ec.
+  - destruct best as [b|].
+    + destruct (w_busy b <? w_busy x); intros H; destruct (IH _ _ H) as [[Hi Hc]|Hb].
+      * left; split; [right; exact Hi|exact Hc].
+      * injection Hb as <-. left; split; [left; reflexivity|exact Ec].
+      * left; split; [right; exact Hi|exact Hc].
+      * right; exact Hb.
+    + intros H; destruct (IH _ _ H) as [[Hi Hc]|Hb]; [left; split; [right; exact Hi|exact Hc]|].
+      injection Hb as <-. left; split; [left; reflexivity|exact Ec].
+  - intros H; destruct (IH _ _ H) as [[Hi Hc]|Hb]; [left; split; [right; exact Hi|exact Hc]|right; exact Hb].
+Qed.
+
+Lemma in_find_w ws w : NoDup (map w_id ws) -> In w ws -> find_w (w_id w) ws = Some w.
+Proof.
+  induction ws as [|x r IH]; intros Hn Hin; [destruct Hin|]. cbn [find_w map] in *.
+  apply NoDup_cons_iff in Hn. destruct Hn as [Hx Hr]. destruct Hin as [->|Hin]; [rewrite N.eqb_refl; reflexivity|].
+  destruct (N.eqb (w_id x) (w_id w)) eqn:E; [|apply IH; assumption].
+  apply N.eqb_eq in E. exfalso. apply Hx. rewrite E. apply in_map. exact Hin.
+Qed.
+
+(* is the VM's worker absent or still Unknown? *)
+Definition uoa (ws : list wkr) (v : vm) : bool :=
+  match find_w (v_id v) ws with None => true | Some w => unk w end.
+
+(* what a pass maintains, relative to the state it started from *)
+Record RInv (vms : list vm) (probes : list (probe0 * presp)) (ws0 : list wkr) (next0 : N) (e : penv) : Prop := {
+  ri_inv : PInv vms probes e;
+  ri_uoa : forall v, In v vms -> uoa (p_workers (pe_pool e)) v = uoa ws0 v;
+  ri_new : forall w, In w (p_workers (pe_pool e)) -> find_w (w_id w) ws0 <> None \/ (next0 <= w_id w)%N;
+  ri_next : (next0 <= pe_next e)%N
+}.
+
+Lemma RInv_frame vms probes ws0 next0 p p' n cr :
+  RInv vms probes ws0 next0 (mkpe p n cr) -> pframe p p' -> RInv vms probes ws0 next0 (mkpe p' n cr).
+Proof.
+  intros [A B C D] Hf. constructor; cbn [pe_pool pe_next] in *.
+  - eapply PInv_frame; eauto.
+  - intros v Hv. rewrite <- (B v Hv). unfold uoa. destruct Hf as (_ & Fr & _).
+    pose proof (frame_find _ _ _ (v_id v) Fr) as X.
+    destruct (find_w (v_id v) (p_workers p)), (find_w (v_id v) (p_workers p')); try contradiction; [|reflexivity].
+    destruct X as (_ & _ & _ & Hu & _). exact Hu.
+  - intros w' Hw'. destruct Hf as (_ & Fr & _). destruct (frame_in _ _ _ _ Fr Hw') as (w & Hw & (Hid & _)). rewrite Hid. apply C. exact Hw.
+  - exact D.
+Qed.
+
+Lemma RInv_create vms probes ws0 next0 it e :
+  RInv vms probes ws0 next0 e -> RInv vms probes ws0 next0 (snd (pe_create_it it e)).
+Proof.
+  intros [HP B C D]. destruct e as [p n cr]. unfold pe_create_it. cbn [pe_pool pe_next pe_create] in *.
+  set (outcome := match cr with [] => 2%N | o :: _ => o end). set (rest := match cr with [] => [] | _ :: r => r end).
+  unfold pool_create. destruct (p_quota p) eqn:Eq.
+  { cbn [snd]. constructor; cbn [pe_pool pe_next]; auto; [|lia].
+    destruct HP as [A1 A2 A3 A4 A5 A6 A7]. constructor; cbn [pe_pool pe_next] in *; auto; intros x Hx; [specialize (A2 x Hx)|specialize (A3 x Hx)]; lia. }
+  cbn [tick].
+  assert (Hbump : forall p', pframe p p' -> RInv vms probes ws0 next0 (mkpe p' (n + 1) rest)).
+  { intros p' Hf. pose proof (RInv_frame vms probes ws0 next0 p p' n cr (Build_RInv _ _ _ _ _ HP B C D) Hf) as [[A1 A2 A3 A4 A5 A6 A7] B' C' D'].
+    constructor; cbn [pe_pool pe_next] in *; auto; [|lia].
+    constructor; cbn [pe_pool pe_next] in *; auto; intros x Hx; [specialize (A2 x Hx)|specialize (A3 x Hx)]; lia. }
+  destruct outcome as [|[o|o|]] eqn:Eo; cbn [snd].
+  - (* instance created *)
+    unfold set_workers. cbn [p_workers p_exited p_clock p_quota p_loaded].
+    set (p1 := mkp (p_workers p) (p_exited p) (p_clock p + 1 + 1) (p_quota p) (p_loaded p)).
+    assert (Hf1 : pframe p p1).
+    { unfold p1. split; [cbn; lia|]. split; [cbn; apply Forall2_refl_frame|]. intros S x Hx. cbn in *. specialize (S x Hx). lia. }
+    pose proof (RInv_frame vms probes ws0 next0 p p1 n cr (Build_RInv _ _ _ _ _ HP B C D) Hf1) as [[A1 A2 A3 A4 A5 A6 A7] B' C' D'].
+    cbn [pe_pool pe_next p1 p_workers p_clock] in *.
+    set (wn := new_worker n it WBooting IRun (p_clock p + 1 + 1)).
+    assert (Hnone : find_w n (p_workers p) = None).
+    { apply find_w_none. intros Hin. apply in_map_iff in Hin. destruct Hin as (x & Hx & Hin). specialize (A2 x Hin). lia. }
+    assert (Hfind : forall id, id <> n -> find_w id (p_workers p ++ [wn]) = find_w id (p_workers p)).
+    { intros id Hne. rewrite find_app. destruct (find_w id (p_workers p)); [reflexivity|]. cbn [find_w wn new_worker w_id].
+      destruct (N.eqb n id) eqn:E; [apply N.eqb_eq in E; congruence|reflexivity]. }
+    constructor; cbn [pe_pool pe_next set_workers p_workers p_clock].
+    + constructor; cbn [pe_pool pe_next set_workers p_workers p_clock].
+      * rewrite map_app. cbn [map wn new_worker w_id]. apply NoDup_app_iff. split; [exact A1|]. split; [repeat constructor; intros []|].
+        intros x Hx [<-|[]]. apply in_map_iff in Hx. destruct Hx as (y & Hy & Hin). specialize (A2 y Hin). lia.
+      * intros x Hx. apply in_app_or in Hx. destruct Hx as [Hx|[<-|[]]]; [specialize (A2 x Hx); lia|cbn; lia].
+      * intros x Hx. specialize (A3 x Hx). lia.
+      * intros v Hv. rewrite Hfind; [apply A4; exact Hv|]. specialize (A3 v Hv). lia.
+      * unfold starting_all in *. cbn [p_workers pe_pool]. rewrite flat_map_app. cbn [flat_map wn new_worker sids w_starting map app]. rewrite app_nil_r. exact A5.
+      * intros pb r Hp. destruct (A6 pb r Hp) as [F1 F2]. split; [exact F1|]. intros w v Hw Hv Hst.
+        destruct (N.eq_dec (pb_id pb) n) as [Heq|Hne].
+        -- exfalso. pose proof (find_vm_in _ _ _ Hv) as Hin. specialize (A3 v Hin). rewrite (find_vm_id _ _ _ Hv) in A3. lia.
+        -- rewrite Hfind in Hw by exact Hne. exact (F2 w v Hw Hv Hst).
+      * intros x Hx. cbn [p_workers p_clock] in *. apply in_app_or in Hx. destruct Hx as [Hx|[<-|[]]]; [apply A7; exact Hx|cbn; lia].
+    + intros v Hv. rewrite <- (B' v Hv). unfold uoa. rewrite Hfind; [reflexivity|]. specialize (A3 v Hv). lia.
+    + intros x Hx. apply in_app_or in Hx. destruct Hx as [Hx|[<-|[]]]; [apply C'; exact Hx|right; cbn; lia].
+    + lia.
+  - cbn [p_workers p_exited p_clock p_quota p_loaded]. apply Hbump.
+    split; [cbn; lia|]. split; [cbn; apply Forall2_refl_frame|]. intros S x Hx. cbn in *. specialize (S x Hx). lia.
+  - cbn [p_workers p_exited p_clock p_quota p_loaded]. apply Hbump.
+    split; [cbn; lia|]. split; [cbn; apply Forall2_refl_frame|]. intros S x Hx. cbn in *. specialize (S x Hx). lia.
+  - cbn [p_workers p_exited p_clock p_quota p_loaded]. apply Hbump.
+    split; [cbn; lia|]. split; [cbn; apply Forall2_refl_frame|]. intros S x Hx. cbn in *. specialize (S x Hx). lia.
+Qed.
+
+Lemma undiscovered_false vms ws0 u :
+  existsb (fun v => memN u (v_procs v) && match find_w (v_id v) ws0 with None => true | Some w => wstate_eqb (w_st w) WUnknown end) vms = false ->
+  forall v, In v vms -> In u (v_procs v) -> uoa ws0 v = false.
+Proof.
+  intros H v Hv Hu. destruct (uoa ws0 v) eqn:E; [|reflexivity]. exfalso.
+  assert (existsb (fun v => memN u (v_procs v) && match find_w (v_id v) ws0 with None => true | Some w => wstate_eqb (w_st w) WUnknown end) vms = true).
+  { apply existsb_exists. exists v. split; [exact Hv|]. apply andb_true_iff. split; [apply memN_In; exact Hu|exact E]. }
+  congruence.
+Qed.
+
+Lemma RInv_start vms probes ws0 next0 it u e :
+  RInv vms probes ws0 next0 e -> fst (pe_kill u e) = false ->
+  (fst (pe_start it u (snd (pe_kill u e))) = true -> forall v, In v vms -> In u (v_procs v) -> uoa ws0 v = false) ->
+  RInv vms probes ws0 next0 (snd (pe_start it u (snd (pe_kill u e)))).
+Proof.
+  intros HR Hk HH. destruct e as [p n cr]. unfold pe_kill, pe_start in *. cbn [pe_pool pe_next pe_create] in *.
+  unfold pool_kill in *. destruct (kill_in u (p_workers p)) as [b ws'] eqn:Ek. cbn [fst snd] in *. subst b.
+  destruct (kill_in_false _ _ _ Ek) as [-> Hfree]. cbn [pe_pool pe_next pe_create].
+  assert (Hsame : set_workers p (p_workers p) = p) by (destruct p; reflexivity). rewrite Hsame in *.
+  unfold pool_start in *. destruct (pick_latest it (p_workers p) None) as [w|] eqn:Epick; cbn [fst snd] in *; [|exact HR].
+  destruct HR as [[A1 A2 A3 A4 A5 A6 A7] B C D]. cbn [pe_pool pe_next] in *.
+  destruct (pick_latest_in _ _ _ _ Epick) as [[Hin Hcand]|Hb]; [|discriminate].
+  pose proof (in_find_w _ _ A1 Hin) as Hf.
+  assert (Hunk : unk w = false).
+  { unfold start_candidate in Hcand. rewrite !andb_true_iff in Hcand. destruct Hcand as [[_ Hs] _]. unfold unk.
+    destruct (w_st w); cbn in *; congruence. }
+  set (w' := start_container u w).
+  assert (V : w_id w' = w_id w /\ sids w' = sids w ++ [u] /\ rids w' = rids w /\ unk w' = false /\ w_updated w' = w_updated w).
+  { unfold w', start_container, sids, rids, unk. cbn. rewrite map_app. auto. }
+  destruct V as (Vi & Vs & Vr & Vu & Vd).
+  (* u has no live process anywhere *)
+  assert (Hnoproc : forall v, In v vms -> ~ In u (v_procs v)).
+  { intros v Hv Hu. assert (Hknown : uoa ws0 v = false).
+    { apply HH; [|exact Hv|exact Hu]. clear HH. cbn [pe_pool]. rewrite ?Hsame. unfold pool_start. rewrite Epick. reflexivity. }
+    rewrite <- (B v Hv) in Hknown. unfold uoa in Hknown.
+    specialize (A4 v Hv). destruct (find_w (v_id v) (p_workers p)) as [wv|] eqn:Ev; [|discriminate].
+    destruct A4 as [A4|A4]; [congruence|]. specialize (A4 u Hu). apply in_app_iff in A4.
+    destruct (Hfree wv (find_w_in _ _ _ Ev)) as [H1 H2]. tauto. }
+  unfold set_workers. constructor; cbn [pe_pool pe_next p_workers p_clock].
+  - constructor; cbn [pe_pool pe_next p_workers p_clock].
+    + rewrite put_w_ids. exact A1.
+    + intros x Hx. apply in_put in Hx. destruct Hx as [->|Hx]; [rewrite Vi; apply A2; exact Hin|apply A2; exact Hx].
+    + exact A3.
+    + intros v Hv. destruct (N.eq_dec (v_id v) (w_id w)) as [Heq|Hne].
+      * rewrite Heq, <- Vi. rewrite (find_put_eq (w_id w') _ w w'); [|rewrite Vi; exact Hf|reflexivity].
+        specialize (A4 v Hv). rewrite Heq, Hf in A4. destruct A4 as [A4|A4]; [congruence|]. right.
+        intros y Hy. specialize (A4 y Hy). rewrite Vs, Vr. apply in_app_iff in A4. apply in_app_iff.
+        destruct A4 as [A4|A4]; [left; apply in_or_app; left; exact A4|right; exact A4].
+      * rewrite find_put_neq by (rewrite Vi; exact Hne). apply A4. exact Hv.
+    + destruct (find_w_split _ _ _ Hf) as (a & b & Hl & Ha). unfold starting_all in *. cbn [p_workers]. rewrite Hl in A5 |- *.
+      rewrite (put_w_split a w b w' Ha Vi).
+      assert (H1 : flat_map sids (a ++ w' :: b) = (flat_map sids a ++ sids w) ++ u :: flat_map sids b).
+      { rewrite flat_map_app. cbn [flat_map]. rewrite Vs, <- !app_assoc. reflexivity. }
+      assert (H0 : flat_map sids (a ++ w :: b) = (flat_map sids a ++ sids w) ++ flat_map sids b).
+      { rewrite flat_map_app. cbn [flat_map]. rewrite <- !app_assoc. reflexivity. }
+      rewrite H1. rewrite H0 in A5. rewrite app_assoc in A5 |- *. apply NoDup_insert_mid; [exact A5|].
+      intros Hu. rewrite <- app_assoc, <- H0 in Hu. apply in_app_iff in Hu. destruct Hu as [Hu|Hu].
+      * apply in_flat_map in Hu. destruct Hu as (v & Hv & Huv). exact (Hnoproc v Hv Huv).
+      * apply in_flat_map in Hu. destruct Hu as (x & Hx & Hux). rewrite <- Hl in Hx. destruct (Hfree x Hx) as [H2 _]. contradiction.
+    + intros pb r Hp. destruct (A6 pb r Hp) as [F1 F2]. split; [exact F1|]. intros x v Hx Hv Hst.
+      destruct (N.eq_dec (pb_id pb) (w_id w)) as [Heq|Hne].
+      * rewrite Heq, <- Vi in Hx. rewrite (find_put_eq (w_id w') _ w w') in Hx; [|rewrite Vi; exact Hf|reflexivity].
+        injection Hx as <-. apply (F2 w v); [rewrite Heq; exact Hf|exact Hv|congruence].
+      * rewrite find_put_neq in Hx by (rewrite Vi; exact Hne). exact (F2 x v Hx Hv Hst).
+    + intros x Hx. cbn [p_workers p_clock] in *. apply in_put in Hx. destruct Hx as [->|Hx]; [rewrite Vd; apply A7; exact Hin|apply A7; exact Hx].
+  - intros v Hv. rewrite <- (B v Hv). unfold uoa. destruct (N.eq_dec (v_id v) (w_id w)) as [Heq|Hne].
+    + rewrite Heq, <- Vi. rewrite (find_put_eq (w_id w') _ w w'); [|rewrite Vi; exact Hf|reflexivity]. rewrite Vi, Hf. congruence.
+    + rewrite find_put_neq by (rewrite Vi; exact Hne). reflexivity.
+  - intros x Hx. apply in_put in Hx. destruct Hx as [->|Hx]; [rewrite Vi; apply C; exact Hin|apply C; exact Hx].
+  - exact D.
+Qed.
+
+Lemma find_vm_app_none id a b : find_vm id a = None -> find_vm id (a ++ b) = find_vm id b.
+Proof. intros H. rewrite find_vm_app, H. reflexivity. Qed.
+
+Lemma step_sched c sorted s s' : Inv s -> step c (LSched sorted) s = Some s' -> Inv s'.
+Proof.
+  intros [Hn HP] H. cbn [step] in H.
+  set (res := sched_pass sorted (s_env s)) in *.
+  destruct (existsb (undiscovered s) (started_uuids (r_log res))) eqn:Eg; [discriminate|]. injection H as <-.
+  destruct s as [e0 vms probes]. cbn [s_env s_vms s_probes spool] in *.
+  set (ws0 := p_workers (pe_pool e0)) in *. set (next0 := pe_next e0).
+  assert (HR0 : RInv vms probes ws0 next0 e0).
+  { constructor; [exact HP|reflexivity| |unfold next0; lia].
+    intros w Hw. left. destruct (in_find _ _ Hw) as (w' & Hf'). unfold ws0. rewrite Hf'. discriminate. }
+  assert (HR : RInv vms probes ws0 next0 (r_pool res)).
+  { unfold res, sched_pass.
+    apply (rq_pool_inv penv pe_quota pe_kill pe_create_it pe_start _ (RInv vms probes ws0 next0)
+             (fun u => forall v, In v vms -> In u (v_procs v) -> uoa ws0 v = false)).
+    - intros e He. exact He.
+    - intros u e He. destruct e as [p n cr]. unfold pe_kill. cbn [pe_pool pe_next pe_create].
+      pose proof (pool_kill_frame u p) as Hf. destruct (pool_kill u p) as [b p'] eqn:Ek. cbn [snd] in *.
+      eapply RInv_frame; eauto.
+    - intros it e He. apply RInv_create. exact He.
+    - intros it u e He Hk HH. apply RInv_start; assumption.
+    - exact HR0.
+    - intros it u Hin. apply undiscovered_false. fold res in Hin.
+      assert (Hu : In u (started_uuids (r_log res))).
+      { unfold started_uuids. apply in_flat_map. exists (EStart it u true). split; [exact Hin|left; reflexivity]. }
+      rewrite <- not_true_iff_false in Eg. destruct (existsb _ vms) eqn:Ex; [|reflexivity]. exfalso. apply Eg.
+      apply existsb_exists. exists u. split; [exact Hu|]. unfold undiscovered. cbn [s_vms spool s_env]. exact Ex. }
+  destruct HR as [[A1 A2 A3 A4 A5 A6 A7] B C D].
+  set (e' := r_pool res) in *.
+  unfold Inv. cbn [s_vms s_probes s_env].
+  match goal with |- context [vms ++ ?x] => set (newvms := x) in * end.
+  assert (Hnew_ge : forall v, In v newvms -> (next0 <= v_id v)%N /\ (v_id v < pe_next e')%N /\ v_procs v = []).
+  { intros v Hv. apply in_map_iff in Hv. destruct Hv as (w & <- & Hw). apply filter_In in Hw. destruct Hw as [Hw Hnw].
+    cbn [v_id v_procs]. split; [|split; [apply A2; exact Hw|reflexivity]].
+    destruct (C w Hw) as [Hc|Hc]; [|exact Hc]. unfold ws0 in Hc. cbn beta in Hnw.
+    unfold spool in Hnw. cbn [s_env] in Hnw.
+    destruct (find_w (w_id w) (p_workers (pe_pool e0))); [discriminate|contradiction]. }
+  assert (Hold_lt : forall v, In v vms -> (v_id v < next0)%N) by (intros v Hv; apply (pi_vfresh _ _ _ HP); exact Hv).
+  split.
+  - rewrite map_app. apply NoDup_app_iff. split; [exact Hn|]. split.
+    + unfold newvms. rewrite map_map. cbn [v_id]. apply NoDup_map_filter. exact A1.
+    + intros x Hx Hx'. apply in_map_iff in Hx. destruct Hx as (v & <- & Hv). apply in_map_iff in Hx'. destruct Hx' as (v' & Heq & Hv').
+      destruct (Hnew_ge v' Hv') as [Hge _]. specialize (Hold_lt v Hv). lia.
+  - assert (Hprocs : flat_map v_procs newvms = []).
+    { clear -Hnew_ge. induction newvms as [|x r IH]; cbn [flat_map]; [reflexivity|].
+      rewrite (proj2 (proj2 (Hnew_ge x (or_introl eq_refl)))). apply IH. intros v Hv. apply Hnew_ge. right; exact Hv. }
+    constructor; try assumption.
+    + intros v Hv. apply in_app_or in Hv. destruct Hv as [Hv|Hv]; [apply A3; exact Hv|apply (Hnew_ge v Hv)].
+    + intros v Hv. apply in_app_or in Hv. destruct Hv as [Hv|Hv]; [apply A4; exact Hv|].
+      destruct (find_w (v_id v) (p_workers (pe_pool e'))); [|exact I]. right. rewrite (proj2 (proj2 (Hnew_ge v Hv))). intros y [].
+    + rewrite flat_map_app, Hprocs, app_nil_r. exact A5.
+    + intros pb r Hp. destruct (A6 pb r Hp) as [F1 F2]. split; [exact F1|]. intros w v Hw Hv Hst.
+      rewrite find_vm_app in Hv. destruct (find_vm (pb_id pb) vms) as [v0|] eqn:E0.
+      * injection Hv as <-. exact (F2 w v0 Hw eq_refl Hst).
+      * apply find_vm_in in Hv. rewrite (proj2 (proj2 (Hnew_ge v Hv))). intros y [].
+Qed.
+
+(* ---------------- the invariant holds in every reachable state ---------------- *)
+Theorem step_inv c l s s' : Inv s -> step c l s = Some s' -> Inv s'.
+Proof.
+  intros HI H. destruct l.
+  - eapply step_sched; eauto.
+  - eapply step_lands; eauto.
+  - eapply step_probebegin; eauto.
+  - eapply step_probeend; eauto.
+  - eapply step_procexit; eauto.
+  - eapply (step_frame_labels c (LKill u)); eauto; exact I.
+  - eapply step_killdelivered; eauto.
+  - eapply (step_frame_labels c (LGiveUp id u)); eauto; exact I.
+  - eapply (step_frame_labels c (LForget u)); eauto; exact I.
+  - eapply (step_frame_labels c (LSetIB id b)); eauto; exact I.
+  - eapply (step_frame_labels c (LShutdownType it chosen)); eauto; exact I.
+  - eapply (step_frame_labels c LSweep); eauto; exact I.
+  - eapply step_poolsync; eauto.
+  - eapply step_vmgone; eauto.
+  - eapply step_restart; eauto.
+Qed.
+
+Lemma init_inv create : Inv (init_sys create).
+Proof.
+  unfold Inv, init_sys. cbn [s_vms s_probes s_env map]. split; [constructor|].
+  constructor; cbn [pe_pool pe_next empty_pool p_workers p_clock map flat_map app].
+  - constructor.
+  - intros w [].
+  - intros v [].
+  - intros v [].
+  - unfold starting_all. cbn. constructor.
+  - intros pb r [].
+  - intros w [].
+Qed.
+
+Theorem run_inv c ls : forall s s', Inv s -> run c ls s = Some s' -> Inv s'.
+Proof.
+  induction ls as [|l r IH]; intros s s' HI H; cbn [run] in H.
+  - injection H as <-. exact HI.
+  - destruct (step c l s) as [s1|] eqn:Es; [|discriminate]. eapply IH; [eapply step_inv; eauto|exact H].
+Qed.
+
+(* C14: in every state reachable by ANY sequence of steps (scheduler passes on arbitrary queue contents,
+   probes, process exits, kills, cloud listings, instances vanishing, dispatcher restarts, ...) no
+   container has two crunch-run processes (started or being started), on one instance or on several *)
+Theorem mutual_exclusion c create ls s :
+  run c ls (init_sys create) = Some s -> NoDup (all_procs s).
+Proof.
+  intros H. destruct (run_inv c ls _ _ (init_inv create) H) as [_ HP]. exact (pi_mutex _ _ _ HP).
+Qed.
+
+(* C14: ... and every live process on an instance whose worker is known and not Unknown is in that
+   worker's starting/running bookkeeping (so Pool.Running() reports it) *)
+Theorem bookkeeping_covers_processes c create ls s v w u :
+  run c ls (init_sys create) = Some s ->
+  In v (s_vms s) -> find_w (v_id v) (p_workers (spool s)) = Some w -> w_st w <> WUnknown ->
+  In u (v_procs v) -> In u (wbook w).
+Proof.
+  intros H Hv Hw Hst Hu. destruct (run_inv c ls _ _ (init_inv create) H) as [_ HP].
+  pose proof (pi_cov _ _ _ HP v Hv) as D. unfold spool in Hw. rewrite Hw in D. destruct D as [D|D].
+  - exfalso. unfold unk in D. destruct (w_st w); cbn in D; try discriminate. apply Hst. reflexivity.
+  - apply D. exact Hu.
 Qed.
